@@ -128,6 +128,9 @@ class Subscription(OneShotTask, DebugContents):
         if self.isScheduled:
             self.suspend_task()
 
+        # the new lifetime governs (zero is permanent)
+        self.lifetime = lifetime
+
         # reschedule the task if its not infinite
         if lifetime != 0:
             self.install_task(delta=lifetime)
